@@ -72,10 +72,19 @@ def job_history(job):
 def job_threads(job):
     nets_ = []
     for mid in job["models"]:
-        net = compiled.build(model_by_id(mid), job["W"])
+        m = model_by_id(mid)
+        net = compiled.build(m, job["W"])
         compiled.compile_net(net)
         nets_.append(net)
+        # the same network without its GroupSum: the direct call path
+        direct = compiled.build(torch.nn.Sequential(*list(m)[:-1]), job["W"])
+        compiled.compile_net(direct)
+        nets_.append(direct)
     batches = [np.array(probe(5, 64 + 7 * i), dtype=bool) for i in range(4)]
+    # batches of EQUAL size and different contents (anything keyed by the batch shape and shared between calls shows here)
+    for i in range(4):
+        r = random.Random(900 + i)
+        batches.append(np.array([[r.randrange(2) for _ in range(5)] for _ in range(64)], dtype=bool))
     # no stdout redirection here: contextlib.redirect_stdout is not thread-safe
     seq = [[n.forward(b).tolist() for b in batches] for n in nets_]
     bad = []
